@@ -12,6 +12,14 @@
 //	  fcs    <data>                      CalcFcs16 / AppendFcs16 / CheckFsc16
 //	  slipeof <splits> <p1> <p2> ...     as slip, but the transport returns its last byte together with io.EOF
 //	                                     (n > 0, err == io.EOF: allowed by the io.Reader contract)
+//	  big    <splits> <len:kind:seed> ...        large deterministic payloads (kind p=escape-free, e=escape-only, m=mixed)
+//	                                             through Writer/Reader; output lists len:sha1 per ReadPacket return
+//	  bigmux <splits> <ft>:<len:kind:seed> ...   the same through SlipMuxWriter/SlipMuxReader
+//	  alias  <slip|ft> <buf> <off:len> ...       payloads passed as sub-slices (with spare capacity) of ONE caller buffer:
+//	                                             the buffer must be byte-identical after every write call, and the reader
+//	                                             must deliver the payloads as they were at call time
+//	  aliasfcs <buf> <off:len>                   CalcFcs16/CheckFsc16/RemoveFcs16 must not write; AppendFcs16 must not
+//	                                             touch data[:len] (it appends, so spare capacity beyond len is its to use)
 //	  obs-dataeof <p1> ...               observation: last byte delivered together with io.EOF
 //	  obs-stall   <pos> <p1> ...         observation: a 0-byte read after <pos> stream bytes
 //	<splits> = comma separated chunk lengths, applied cyclically ("1" = one byte per read).
@@ -19,6 +27,7 @@ package main
 
 import (
 	"bytes"
+	"crypto/sha1"
 	"errors"
 	"fmt"
 	"io"
@@ -175,6 +184,180 @@ func doMux(splits []int, stream []byte) string {
 	return "pk=" + sb.String()
 }
 
+// fillPattern: deterministic payload. p: bytes 0x01..0xBF (never escaped); e: only END/ESC/ESC_END/ESC_ESC;
+// m: all byte values.
+func fillPattern(n int, kind string, seed int) []byte {
+	b := make([]byte, n)
+	sp := [4]byte{slip.END, slip.ESC, slip.ESC_END, slip.ESC_ESC}
+	for i := range b {
+		switch kind {
+		case "p":
+			b[i] = byte(1 + (i*7+seed)%0xBF)
+		case "e":
+			b[i] = sp[(i+seed+i/5)%4]
+		default:
+			b[i] = byte(i*31 + seed + i/251)
+		}
+	}
+	return b
+}
+
+func digest(p []byte) string {
+	if len(p) == 0 {
+		return "-"
+	}
+	h := sha1.Sum(p)
+	return fmt.Sprintf("%d:%x", len(p), h[:6])
+}
+
+func parseSpec(s string) (n int, kind string, seed int) {
+	parts := strings.Split(s, ":")
+	if len(parts) != 3 {
+		panic("bad spec " + s)
+	}
+	n, _ = strconv.Atoi(parts[0])
+	seed, _ = strconv.Atoi(parts[2])
+	return n, parts[1], seed
+}
+
+// doBig: every ReadPacket return until the transport's end; a return with isPrefix=true and
+// err=nil (which the io.Reader-with->=1-byte transport never provokes in the unchanged code)
+// is listed as P<digest> and reading goes on, as the isPrefix contract asks of the caller.
+func doBig(splits []int, stream []byte) string {
+	cr := &chunkReader{data: stream, splits: splits, end: io.EOF, stallAt: -1}
+	r := slip.NewReader(cr)
+	var items []string
+	prefixes := 0
+	for i := 0; i < 1<<16; i++ {
+		p, isPrefix, e := r.ReadPacket()
+		if e != nil {
+			if len(items) == 0 {
+				items = []string{"none"}
+			}
+			return fmt.Sprintf("pk=%s prefixes=%d tail=%s end=%s", strings.Join(items, ","), prefixes, digest(p), errName(e))
+		}
+		if isPrefix {
+			prefixes++
+			items = append(items, "P"+digest(p))
+			continue
+		}
+		items = append(items, digest(p))
+	}
+	panic("reader does not terminate")
+}
+
+func doBigMux(splits []int, stream []byte) string {
+	cr := &chunkReader{data: stream, splits: splits, end: errDone, stallAt: -1}
+	r := slip.NewSlipMuxReader(cr)
+	var items []string
+	for i := 0; i < 1<<16; i++ {
+		p, ft, err := r.ReadPacket()
+		if err != nil {
+			if err != errDone {
+				return "ERR " + err.Error()
+			}
+			break
+		}
+		items = append(items, fmt.Sprintf("%02x:%s", ft, digest(p)))
+	}
+	if len(items) == 0 {
+		return "pk=none"
+	}
+	return "pk=" + strings.Join(items, ",")
+}
+
+func firstDiff(a, b []byte) int {
+	for i := range a {
+		if a[i] != b[i] {
+			return i
+		}
+	}
+	return -1
+}
+
+func parseOffLen(s string, max int) (int, int) {
+	parts := strings.Split(s, ":")
+	if len(parts) != 2 {
+		panic("bad off:len " + s)
+	}
+	off, _ := strconv.Atoi(parts[0])
+	n, _ := strconv.Atoi(parts[1])
+	if off < 0 || n < 0 || off+n > max {
+		panic("off:len out of range " + s)
+	}
+	return off, n
+}
+
+// doAlias: the caller owns ONE buffer and hands sub-slices of it (len n, capacity up to the end of
+// the buffer) to the writer, like blocks of a firmware image or a retransmission of the same slice.
+func doAlias(who string, buf []byte, specs []string) string {
+	pristine := append([]byte(nil), buf...)
+	var wire bytes.Buffer
+	sw := slip.NewWriter(&wire)
+	mw := slip.NewSlipMuxWriter(&wire)
+	var ft byte
+	if who != "slip" {
+		ft = vh.UnHex(who)[0]
+	}
+	var sent []string
+	var clobber []string
+	for i, sp := range specs {
+		off, n := parseOffLen(sp, len(buf))
+		p := buf[off : off+n] // cap(p) = len(buf)-off: spare capacity behind the payload
+		sent = append(sent, vh.Hex(p))
+		var err error
+		if who == "slip" {
+			err = sw.WritePacket(p)
+		} else {
+			err = mw.WritePacket(ft, p)
+		}
+		if err != nil {
+			return "ERR write " + err.Error()
+		}
+		if d := firstDiff(pristine, buf); d >= 0 {
+			clobber = append(clobber, fmt.Sprintf("%d@%d", i, d))
+			copy(pristine, buf) // report each call's own damage once
+		}
+	}
+	cl := "none"
+	if len(clobber) > 0 {
+		cl = strings.Join(clobber, ",")
+	}
+	stream := append([]byte(nil), wire.Bytes()...)
+	var rd string
+	if who == "slip" {
+		rd = doSlip([]int{3}, stream)
+	} else {
+		rd = doMux([]int{3}, stream)
+	}
+	return fmt.Sprintf("clobber=%s sent=%s %s", cl, strings.Join(sent, ","), rd)
+}
+
+func doAliasFcs(buf []byte, spec string) string {
+	pristine := append([]byte(nil), buf...)
+	off, n := parseOffLen(spec, len(buf))
+	p := buf[off : off+n]
+	c := slip.CalcFcs16(p)
+	_ = slip.CalcFcs16WithInit(0x1234, p)
+	_ = slip.CheckFsc16(p)
+	if n >= 2 {
+		_ = slip.RemoveFcs16(p)
+	}
+	ro := "ok"
+	if d := firstDiff(pristine, buf); d >= 0 {
+		ro = fmt.Sprintf("CLOBBER@%d", d)
+	}
+	app := slip.AppendFcs16(p, c)
+	res := "ok"
+	if len(app) != n+2 || !bytes.Equal(app[:n], pristine[off:off+n]) || !slip.CheckFsc16(app) {
+		res = "BAD-RESULT"
+	}
+	if d := firstDiff(pristine[:off+n], buf[:off+n]); d >= 0 {
+		res = fmt.Sprintf("CLOBBER@%d", d)
+	}
+	return fmt.Sprintf("readonly=%s append=%s", ro, res)
+}
+
 func main() {
 	if len(os.Args) > 1 && os.Args[1] == "gen" {
 		gen()
@@ -207,6 +390,47 @@ func main() {
 			}
 			stream := append([]byte(nil), buf.Bytes()...)
 			return "stream=" + vh.Hex(stream) + " " + doSlipT(splits, stream, true)
+		case "big":
+			splits := parseSplits(f[1])
+			var buf bytes.Buffer
+			w := slip.NewWriter(&buf)
+			for _, sp := range f[2:] {
+				n, kind, seed := parseSpec(sp)
+				if err := w.WritePacket(fillPattern(n, kind, seed)); err != nil {
+					return "ERR write " + err.Error()
+				}
+			}
+			return doBig(splits, append([]byte(nil), buf.Bytes()...))
+		case "bigmux":
+			splits := parseSplits(f[1])
+			var buf bytes.Buffer
+			w := slip.NewSlipMuxWriter(&buf)
+			for _, sp := range f[2:] {
+				i := strings.IndexByte(sp, ':')
+				if i != 2 {
+					return "bad-op"
+				}
+				ft := vh.UnHex(sp[:2])[0]
+				n, kind, seed := parseSpec(sp[3:])
+				p := fillPattern(n, kind, seed)
+				if slip.IsIpFrame(ft) && n > 0 {
+					p[0] = ft
+				}
+				if err := w.WritePacket(ft, p); err != nil {
+					return "ERR write " + err.Error()
+				}
+			}
+			return doBigMux(splits, append([]byte(nil), buf.Bytes()...))
+		case "alias":
+			if len(f) < 4 {
+				return "bad-op"
+			}
+			return doAlias(f[1], vh.UnHex(f[2]), f[3:])
+		case "aliasfcs":
+			if len(f) != 3 {
+				return "bad-op"
+			}
+			return doAliasFcs(vh.UnHex(f[1]), f[2])
 		case "raw":
 			if len(f) != 3 {
 				return "bad-op"
